@@ -498,6 +498,7 @@ class HostDictCallable(tae.HostObject):
 
     def __init__(self, shapes: Dict[str, Sequence[int]]):
         self.shapes = {k: list(v) for k, v in shapes.items()}
+        self.last = None
 
     def __call__(self, *args, **kwargs):
         out = {}
@@ -639,7 +640,7 @@ def run_generic_leaf(ctx: Ctx) -> None:
     ctx.rule("T20.generic-leaf", "GenericSpatialTransform whose parameters are predicted by a callable, or given with data_(dict): after update() "
                                  "every component (affine parts and the non-rigid part) holds the very tensor it was given — same storage, not a "
                                  "torch.nn.Parameter wrapped around it (a Parameter is a new autograd leaf: the producer of the values would get "
-                                 "no gradient)")
+                                 "no gradient) — and update() takes no detach() / .data of the predicted tensors on the way")
     for model in ("Affine o SVF", "DDF o Affine", "SVF", "Affine"):
         def th(model=model):
             env = TEnv(ctx, 2)
@@ -656,7 +657,14 @@ def run_generic_leaf(ctx: Ctx) -> None:
             net = HostDictCallable(shapes)
             t = it.new(prog.cls(G, "GenericSpatialTransform"), env.grid, params=net, config=cfg)
             it.method(t, "condition_", Rat.atom("c0"))
+            del symt.GRAPH_EVENTS[:]
             it.method(t, "update")
+            events = list(symt.GRAPH_EVENTS)
+            for name, pred in (net.last or {}).items():
+                hit = [b for b, sid in events if sid == id(pred.store)]
+                if hit:
+                    return False, (f"{model}: update() takes {hit[0]} of the values predicted for component '{name}' (the component is cut off "
+                                   f"from the graph of the network that produced them)")
             for name, child in t.attrs["_modules"]["_transforms"].items():
                 p = child.attrs.get("params", child.attrs.get("_parameters", {}).get("params"))
                 if p is None:
